@@ -227,6 +227,14 @@ func (x *Exec) iterHandlerReturned(s *State, caller *Frame, hfr *Frame, rs []Val
 		return false
 	}
 	halted := Var("g:etreeutils.ErrTraversalHalted", SIface)
+	if ic.lspec != nil && ic.lspec.NoHalt != nil {
+		// the handler must not stop the traversal early: a nil result of the iteration then means "every match visited"
+		tags := ic.lspec.NoHalt.Tags
+		if len(tags) == 0 {
+			tags = x.ownerTags
+		}
+		x.oblige(s, "inv.step", fmt.Sprintf("iter%d#nohalt@%s", ic.site, shortFn(fnKey(caller.fn))), Neq(errT.Term, halted), tags, ic.in.Pos(), "nohalt")
+	}
 	res := Ite(Eq(errT.Term, halted), x.w.INil(), errT.Term)
 	if call != nil {
 		x.bindResult(s, caller, call, []Value{{T: errT.T, Term: res}})
